@@ -535,6 +535,8 @@ def check_spellings(argspec, res, env=False):
         case = {'what': 'spelling', 'argspec': argspec, 'env': env}
         if r[0] == 'exc':
             res.fail('c16:spelling-raises:%s' % label, '%r on %r: %s' % (label, src, r), case)
+        elif r[0] == 'parse-error' and base[0][0] == 'parse-error':
+            pass        # both fail: parity holds whatever the two error kinds are
         elif r != base[0]:
             what = 'failure-parity' if r[0] != base[0][0] else 'nodes'
             if r[0] == 'ok' and base[0][0] == 'ok':
